@@ -1,4 +1,6 @@
 import FormulaicVerif.Proofs.C07
+import FormulaicVerif.Proofs.C07Hist
+import FormulaicVerif.Proofs.C07HistEq
 /-! # C07 — Multi-part formulas give row-aligned parts equal to separate builds
 
 Property theorems only (helper lemmas: `Proofs/C07.lean`). They are about the executable model
@@ -525,5 +527,666 @@ example : ∀ j, materialize demoW demoOpts demoF [] [] = .ok j →
     rw [hw, h3] at h1'
     simp only [Option.map_some, Option.some.injEq] at h1'
     exact ⟨w', by rw [h1']⟩
+
+/-! ## 6. multi-step histories: structured specs that are built, edited / composed and built again
+
+Model: `Model/PartsHist.lean` — specs as the library stores them (recorded structure, transform and
+encoder state, recorded materializer name and params, output / rank / clustering settings), one
+`get_model_matrix` call on a materializer OBJECT with its three caches (`core`, `MatObj.call`,
+`materializeH`), `ModelSpecs.get_model_matrix` with its joint / per-spec decision
+(`specsGetModelMatrix`), `ModelSpecs.subset` / `differentiate`. These are the functions the engine
+runs for the streams `hist`, `fault` and `edit`. -/
+
+section histories
+open FormulaicVerif.Model.PartsHist FormulaicVerif.Proofs.C07Hist
+
+variable {σ : Type}
+
+/-- a concrete instance: the demo data seen through a pandas-like materializer class; the encoder
+state is the drop list the encoder saw -/
+def demoHW : HWorld (List Rat) Rat (List Nat) :=
+  { nrows := 3, eval := demoEval,
+    fmeta := fun e _ => ⟨true, if e = "1" then .constant 1 else .numerical, false, false⟩,
+    encode := fun _ vals drop _ _ =>
+      .ok (⟨.single (((List.range vals.length).zip vals).filterMap (fun iv => if drop.contains iv.1 then none else some iv.2)),
+        false, none, false, demoFmt, none⟩, drop) }
+def demoMC : MatClass := ⟨"pandas", ["pandas", "numpy", "sparse"], [], .fast⟩
+def demoHF : Val (HSpec Rat (List Nat)) :=
+  .node [("lhs", .leaf (HSpec.fresh [["y"]])),
+         ("rhs", .tup [.leaf (HSpec.fresh [["1"], ["c(x)"]]), .leaf (HSpec.fresh [["z"]])])]
+def demoEnv : Env (List Rat) Rat (List Nat) := ⟨[demoMC], some "pandas", fun _ => demoHW⟩
+
+/-- the demo call: rows 1 and 2 are dropped jointly, every part keeps row 0, every spec records the materializer -/
+example : (materializeH demoHW demoMC [] demoHF Overrides.none ["z", "y"] []).toOption.map
+      (fun j => (j.drop, (flatten j.parts).map (fun p => (p.matrix.rows, p.spec.materializer, p.spec.enc.map (·.1))))) =
+    some ([1, 2], [([0], some "pandas", ["y"]), ([0], some "pandas", ["c(x)"]), ([0], some "pandas", ["z"])]) := by
+  decide +kernel
+
+/-- C07.6  ONE `get_model_matrix` call on specs in ANY state (never materialized, materialized before by
+any materializer, edited), for every override setting, iteration order and caller drop set: the result and
+its attached specs have the shape of the structure (after the constructors have run); one strictly
+increasing drop list serves all parts, it contains the caller's rows, and every other member is a null
+position of an evaluated factor; every part has exactly the rows outside it and one entry per such row in
+every column; every attached spec records this materializer's name and params. -/
+theorem hist_call_shape_rows (W : HWorld ν τ σ) (mc : MatClass) (params : Params) (F : Val (HSpec τ σ)) (ov : Overrides)
+    (perm : List String) (caller : List Nat) (j : JointH ν τ σ)
+    (h : materializeH W mc params F ov perm caller = .ok j) :
+    shape j.parts = shape (norm F) ∧ shape (specsOfH j.parts) = shape (norm F) ∧
+    j.drop.Pairwise (· < ·) ∧ (∀ i, i ∈ j.drop ↔ i ∈ j.dropSet) ∧ (∀ i ∈ caller, i ∈ j.drop) ∧
+    (∀ i ∈ j.drop, i ∈ caller ∨ ∃ kv ∈ j.memo, i ∈ kv.2.nulls) ∧
+    ∀ p ∈ flatten j.parts,
+      p.matrix.rows = keptRows W.nrows j.drop ∧ (∀ c ∈ p.matrix.cols, c.col.length = W.nrows - j.drop.length) ∧
+      p.spec.materializer = some mc.name ∧ p.spec.params = some params := by
+  obtain ⟨m', hc⟩ := materializeH_core h
+  obtain ⟨hs, hrl, _⟩ := core_parts hc
+  obtain ⟨hd, hsorted, extra, he, hex, _⟩ := core_drop hc
+  have hmem : ∀ i, i ∈ j.drop ↔ i ∈ j.dropSet := fun i => by rw [hd, mem_sortSet]
+  refine ⟨hs, ?_, hsorted, hmem, ?_, ?_, core_rows hc⟩
+  · rw [specsOfH, shape_mapV, norm_of_rootLast _ hrl, hs]
+  · intro i hi; rw [hmem, he]; exact List.mem_append_left _ hi
+  · intro i hi
+    rw [hmem, he] at hi
+    rcases List.mem_append.mp hi with hi | hi
+    · exact .inl hi
+    · exact .inr (hex i hi)
+
+/-- C07.6b  Row counts fit: when the caller's rows and the null positions are rows of the data, every column of
+every part has one entry per kept row. -/
+theorem hist_call_columns_fit_rows (W : HWorld ν τ σ) (mc : MatClass) (params : Params) (F : Val (HSpec τ σ))
+    (ov : Overrides) (perm : List String) (caller : List Nat) (j : JointH ν τ σ)
+    (h : materializeH W mc params F ov perm caller = .ok j)
+    (hcaller : ∀ i ∈ caller, i < W.nrows)
+    (hnulls : ∀ kv ∈ j.memo, ∀ i ∈ kv.2.nulls, i < W.nrows) :
+    ∀ p ∈ flatten j.parts, ∀ c ∈ p.matrix.cols, c.col.length = p.matrix.rows.length := by
+  obtain ⟨_, _, hsorted, _, _, hwhy, hparts⟩ := hist_call_shape_rows W mc params F ov perm caller j h
+  intro p hp c hc
+  obtain ⟨hrows, hlen, _⟩ := hparts p hp
+  rw [hlen c hc, hrows, keptRows_length (hsorted.imp (fun h => Nat.ne_of_lt h))]
+  intro i hi
+  rcases hwhy i hi with h' | ⟨kv, hkv, hi'⟩
+  · exact hcaller i h'
+  · exact hnulls kv hkv i hi'
+
+/-! ### joint or per-spec generation -/
+
+/-- C07.7a  A part that was never materialized (no recorded materializer) is invisible to the scan that
+decides between joint and per-spec generation, wherever it stands: before, between or after materialized parts. -/
+theorem fresh_parts_never_block_joint (s : HSpec τ σ) (hs : s.materializer = none) (L₁ L₂ : List (HSpec τ σ))
+    (acc : Option String × Option Params) :
+    jointScan (L₁ ++ s :: L₂) acc = jointScan (L₁ ++ L₂) acc :=
+  jointScan_insert_fresh s (by simp [truthyStr, hs]) L₁ L₂ acc
+
+/-- C07.7b  Specs that were all written by ONE materializer (same name, same params) or never materialized are
+generated jointly, in every order, and by that materializer with those params (empty params count as unset). -/
+theorem joint_after_one_materializer (n : String) (p : Params) (hn : n ≠ "") (hp : (p.map (·.1)).Nodup)
+    (L : List (HSpec τ σ)) (h : ∀ s ∈ L, s.materializer = none ∨ (s.materializer = some n ∧ s.params = some p)) :
+    ∃ acc, jointScan L (none, none) = some acc ∧
+      (acc = (none, none) ∨ acc = (some n, if p.isEmpty then none else some p)) := by
+  apply jointScan_uniform n p hn hp L _ _ (.inl rfl)
+  intro s hs
+  rcases h s hs with h' | h'
+  · exact .inl (by simp [truthyStr, h'])
+  · exact .inr h'
+
+example : ("pandas" : String) ≠ "" := by decide
+example : (([("tag", "1")] : Params).map (·.1)).Nodup := by decide
+
+/-- C07.7c  The additional input class: take the attached specs of ANY earlier call and put never materialized
+specs before, between or after them, in any order — the composed structure is generated jointly. -/
+theorem rebuilt_with_fresh_parts_is_joint (W : HWorld ν τ σ) (mc : MatClass) (params : Params) (F : Val (HSpec τ σ))
+    (ov : Overrides) (perm : List String) (caller : List Nat) (j : JointH ν τ σ)
+    (h : materializeH W mc params F ov perm caller = .ok j) (hn : mc.name ≠ "") (hp : (params.map (·.1)).Nodup)
+    (L : List (HSpec τ σ)) (hL : ∀ s ∈ L, s.materializer = none ∨ ∃ p ∈ flatten j.parts, s = p.spec) :
+    ∃ acc, jointScan L (none, none) = some acc := by
+  obtain ⟨_, _, _, _, _, _, hparts⟩ := hist_call_shape_rows W mc params F ov perm caller j h
+  obtain ⟨acc, hacc, _⟩ := joint_after_one_materializer mc.name params hn hp L (by
+    intro s hs
+    rcases hL s hs with h' | ⟨p, hp', rfl⟩
+    · exact .inl h'
+    · obtain ⟨_, _, h1, h2⟩ := hparts p hp'
+      exact .inr ⟨h1, h2⟩)
+  exact ⟨acc, hacc⟩
+
+/-- non-vacuity and a witness that the other branch exists: two demo specs recorded with different params are NOT
+generated jointly, with equal params they are, and a fresh spec in front changes neither -/
+example : jointScan ([{ HSpec.fresh [["y"]] with materializer := some "pandas", params := some [("tag", "1")] },
+      { HSpec.fresh [["z"]] with materializer := some "pandas", params := some [("tag", "2")] }] : List (HSpec Rat (List Nat)))
+    (none, none) = none := by decide
+example : jointScan ([HSpec.fresh [["x"]], { HSpec.fresh [["y"]] with materializer := some "pandas", params := some [("tag", "1")] },
+      { HSpec.fresh [["z"]] with materializer := some "pandas", params := some [("tag", "1")] }] : List (HSpec Rat (List Nat)))
+    (none, none) = some (some "pandas", some [("tag", "1")]) := by decide
+
+/-- C07.8  `ModelSpecs.get_model_matrix` on specs in ANY state and ANY mixture of recorded materializers, joint or
+per-spec: the result has the shape of the structure; the caller-visible drop set after the call contains the
+caller's rows and is EXACTLY the set of rows missing from every part — all parts contain the same rows. (For
+the per-spec branch this is the repaired code: a second pass once the null rows of all parts are known.) -/
+theorem specs_parts_row_aligned (E : Env ν τ σ) (n : Nat) (hn : ∀ c, (E.world c).nrows = n) (F : Val (HSpec τ σ))
+    (ov : Overrides) (perm : List String) (caller : List Nat) (out : SpecsOut τ σ)
+    (h : specsGetModelMatrix E F ov perm caller = .ok out) :
+    shape out.parts = shape (norm F) ∧ (∀ i ∈ caller, i ∈ out.dropSet) ∧
+    ∀ p ∈ flatten out.parts, p.matrix.rows = keptRows n (sortSet out.dropSet) := by
+  unfold specsGetModelMatrix at h
+  simp only at h
+  generalize hS : (if ov.isEmpty = true then F else mapV (fun h _ => applyOv ov h) [] F) = S at h
+  have hshapeS : shape (norm S) = shape (norm F) := by
+    rw [← hS]
+    split
+    · rfl
+    · rw [norm_of_rootLast _ (rootLast_mapV _ _ _), shape_mapV]
+  cases hscan : jointScan (flatten S) (none, none) with
+  | some mp =>
+    obtain ⟨m, p⟩ := mp
+    simp only [hscan] at h
+    cases hc : E.classFor m with
+    | error e => simp [hc] at h
+    | ok mc =>
+      simp only [hc] at h
+      cases hm : materializeH (E.world mc.name) mc (paramsOr p) S Overrides.none perm caller with
+      | error e => simp [hm] at h
+      | ok j =>
+        simp only [hm, Except.ok.injEq] at h
+        subst h
+        obtain ⟨h1, _, _, h4, h5, _, h7⟩ := hist_call_shape_rows _ mc _ S _ perm caller j hm
+        obtain ⟨m', hcore⟩ := materializeH_core hm
+        obtain ⟨hd, _⟩ := core_drop hcore
+        refine ⟨by rw [h1, hshapeS], fun i hi => (h4 i).mp (h5 i hi), ?_⟩
+        intro q hq
+        simp only
+        rw [(h7 q hq).1, hn, hd]
+  | none =>
+    simp only [hscan] at h
+    cases hp1 : perSpecPass E perm caller (flatten S) with
+    | error e => simp [hp1] at h
+    | ok r1 =>
+      obtain ⟨ps, d⟩ := r1
+      simp only [hp1] at h
+      obtain ⟨_, ⟨e1, hd1, hdet⟩, hparts1⟩ := perSpecPass_spec hn hp1
+      split at h
+      · -- the set did not grow: one pass
+        rename_i hsz
+        cases hr : rebuild S ps with
+        | error e => simp [hr] at h
+        | ok parts =>
+          simp only [hr, Except.ok.injEq] at h
+          subst h
+          have hsub : ∀ i ∈ caller, i ∈ d := fun i hi => by rw [hd1]; exact List.mem_append_left _ hi
+          have hback := subset_of_setSize hsub hsz
+          refine ⟨by rw [rebuild_shape hr, hshapeS], hsub, ?_⟩
+          intro q hq
+          obtain ⟨dk, a, b, c⟩ := hparts1 q (rebuild_mem hr q hq)
+          simp only
+          rw [c]
+          congr 1
+          exact sortSet_congr (fun i => ⟨fun hi => b i hi, fun hi => a i (hback i hi)⟩)
+      · -- the set grew: every spec again, with the complete set
+        cases hp2 : perSpecPass E perm d (flatten S) with
+        | error e => simp [hp2] at h
+        | ok r2 =>
+          obtain ⟨ps', d'⟩ := r2
+          simp only [hp2] at h
+          cases hr : rebuild S ps' with
+          | error e => simp [hr] at h
+          | ok parts =>
+            simp only [hr, Except.ok.injEq] at h
+            subst h
+            obtain ⟨_, ⟨e2, hd2, _⟩, hparts2⟩ := perSpecPass_spec hn hp2
+            -- the second pass adds the rows the first one added: nothing new
+            have hsame : d' = d ++ e1 := hdet d ps' d' hp2
+            have hback : ∀ i ∈ d', i ∈ d := by
+              intro i hi
+              rw [hsame] at hi
+              rcases List.mem_append.mp hi with hi | hi
+              · exact hi
+              · rw [hd1]; exact List.mem_append_right _ hi
+            have hsub : ∀ i ∈ caller, i ∈ d' := fun i hi => by
+              rw [hsame, hd1]; exact List.mem_append_left _ (List.mem_append_left _ hi)
+            refine ⟨by rw [rebuild_shape hr, hshapeS], hsub, ?_⟩
+            intro q hq
+            obtain ⟨dk, a, b, c⟩ := hparts2 q (rebuild_mem hr q hq)
+            simp only
+            rw [c]
+            congr 1
+            exact sortSet_congr (fun i => ⟨fun hi => b i hi, fun hi => a i (hback i hi)⟩)
+
+example : ∀ c, (demoEnv.world c).nrows = 3 := fun _ => rfl
+
+/-- a quirk of the scan, mirrored as written: empty params count as "unset" only when they come FIRST — a spec recorded
+with `{}` followed by one recorded with `{tag: 1}` is generated jointly (with `{tag: 1}`), the other order per spec -/
+example : jointScan ([{ HSpec.fresh [["y"]] with materializer := some "pandas", params := some [] },
+      { HSpec.fresh [["z"]] with materializer := some "pandas", params := some [("tag", "1")] }] : List (HSpec Rat (List Nat)))
+    (none, none) = some (some "pandas", some [("tag", "1")]) := by decide
+example : jointScan ([{ HSpec.fresh [["z"]] with materializer := some "pandas", params := some [("tag", "1")] },
+      { HSpec.fresh [["y"]] with materializer := some "pandas", params := some [] }] : List (HSpec Rat (List Nat)))
+    (none, none) = none := by decide
+
+/-- the per-spec branch really runs in the demo: the attached specs of two calls with different params, the second pass
+aligns the parts (rows 1 and 2 dropped from both) -/
+example :
+    let a := (materializeH demoHW demoMC [("tag", "1")] (.node [("p", .leaf (HSpec.fresh [["y"]]))]) Overrides.none [] []).toOption
+    let b := (materializeH demoHW demoMC [("tag", "2")] (.node [("q", .leaf (HSpec.fresh [["z"]]))]) Overrides.none [] []).toOption
+    (match a, b with
+     | some ja, some jb =>
+       (specsGetModelMatrix demoEnv (.node [("p", specsOfH ja.parts), ("q", specsOfH jb.parts)]) Overrides.none [] []).toOption.map
+         (fun o => (o.jointly, o.passes, sortSet o.dropSet, (flatten o.parts).map (·.matrix.rows)))
+     | _, _ => none) = some (false, 2, [1, 2], [[0], [0]]) := by
+  decide +kernel
+
+/-! ### one materializer object, any history of calls -/
+
+/-- C07.9  FAULT-THEN-REUSE: whatever calls were made before on a materializer object — any number, with any
+arguments, succeeded or raised (what the object holds afterwards is `(MatObj.call …).2`, an arbitrary `m` covers
+every history) — the next call answers exactly what a new object answers. -/
+theorem materializer_reuse_after_any_history (W : HWorld ν τ σ) (mc : MatClass) (params : Params) (m : MatObj ν σ)
+    (F : Val (HSpec τ σ)) (ov : Overrides) (perm : List String) (caller : List Nat) :
+    (MatObj.call W mc params m F ov perm caller).1 = materializeH W mc params F ov perm caller := rfl
+
+/-- C07.9b  … in particular after any LIST of earlier calls -/
+theorem materializer_reuse_after_calls (W : HWorld ν τ σ) (mc : MatClass) (params : Params)
+    (hist : List (Val (HSpec τ σ) × Overrides × List String × List Nat)) (m₀ : MatObj ν σ)
+    (F : Val (HSpec τ σ)) (ov : Overrides) (perm : List String) (caller : List Nat) :
+    (MatObj.call W mc params
+        (hist.foldl (fun m a => (MatObj.call W mc params m a.1 a.2.1 a.2.2.1 a.2.2.2).2) m₀) F ov perm caller).1 =
+      materializeH W mc params F ov perm caller := rfl
+
+/-- why the caches must be emptied (negative witness): the call BODY started with what an earlier call with another
+caller drop set left behind raises (the cached encodings have the wrong number of rows); started empty it succeeds -/
+example :
+    (match core demoHW demoMC [] MatObj.empty demoHF Overrides.none [] [0] with
+     | .ok (_, stale) =>
+       ((core demoHW demoMC [] stale demoHF Overrides.none [] []).toOption.isSome,
+        (core demoHW demoMC [] MatObj.empty demoHF Overrides.none [] []).toOption.isSome)
+     | .error _ => (true, false)) = (false, true) := by
+  decide +kernel
+
+/-! ### `ModelSpecs.subset` and `ModelSpecs.differentiate` -/
+
+/-- C07.10a  `result.model_spec.differentiate(…)` keeps the nested shape, puts the differentiated terms at every
+leaf (in `_flatten` order), unsets the recorded structure and keeps everything else (so `specs_parts_row_aligned`
+applies to building them: row-aligned parts). -/
+theorem specs_differentiate_spec (D : List MTerm → List MTerm) (S : Val (HSpec τ σ)) :
+    shape (specsDifferentiate D S) = shape (norm S) ∧
+    flatten (specsDifferentiate D S) =
+      (flatten (norm S)).map (fun h => { h with core := ⟨D h.core.terms, none, h.core.state⟩ }) := by
+  refine ⟨by rw [specsDifferentiate, shape_mapV], ?_⟩
+  rw [specsDifferentiate, flatten_mapV, ← flattenP_fst (norm S) [], List.map_map]
+  rfl
+
+/-- C07.10b  `ModelSpecs.subset` refuses a formula without structure -/
+theorem specs_subset_unstructured (S : Val (HSpec τ σ)) : specsSubset S none = .error .value := rfl
+
+/-- C07.10c  When `ModelSpecs.subset(formula)` succeeds the result has the nested shape of the FORMULA, and leaf by
+leaf (in `_flatten` order, paired with the formula's leaves and their paths): the path leads to a single spec of
+this structure, every chosen term is a term of that spec, the new spec holds the chosen terms in the formula's
+order, the structure rows the parent recorded for them, and the parent's state, encoder state, materializer record
+and settings unchanged. -/
+theorem specs_subset_spec (S : Val (HSpec τ σ)) (fm : Val (List MTerm)) (R : Val (HSpec τ σ))
+    (h : specsSubset S (some fm) = .ok R) :
+    shape R = shape (norm fm) ∧
+    List.Forall₂ (fun (tp : List MTerm × Path) (r : HSpec τ σ) =>
+        ∃ x, lookupPathPy tp.2 S = .ok (.leaf x) ∧
+          r.core.terms = tp.1 ∧ (∀ t ∈ tp.1, ∃ t' ∈ x.core.terms, termEq t t' = true) ∧
+          (∃ str rows, x.core.struct = some str ∧ r.core.struct = some rows ∧
+            List.Forall₂ (fun t s => s ∈ str ∧ termEq s.term t = true) tp.1 rows) ∧
+          r.core.state = x.core.state ∧ r.enc = x.enc ∧ r.materializer = x.materializer ∧ r.params = x.params ∧
+          r.output = x.output ∧ r.efr = x.efr ∧ r.cluster = x.cluster)
+      (flattenP [] (norm fm)) (flatten R) := by
+  unfold specsSubset at h
+  simp only at h
+  cases hm : mapL (fun tp => subsetAt S tp.1 tp.2) (flattenP [] (norm fm)) with
+  | error e => simp [hm] at h
+  | ok l =>
+    simp only [hm] at h
+    obtain ⟨hf, _⟩ := rebuild_flatten (rootLast_norm fm) h
+    refine ⟨by rw [rebuild_shape h, norm_norm], ?_⟩
+    rw [hf]
+    refine (mapL_spec _ _ _ hm).imp ?_
+    intro tp r hr
+    obtain ⟨x, hx, hs⟩ := subsetAt_ok hr
+    obtain ⟨h1, h2, h3, h4, h5, h6, h7, h8, h9, h10⟩ := subsetLeaf_spec hs
+    exact ⟨x, hx, h1, h9, h10, h2, h3, h4, h5, h6, h7, h8⟩
+
+/-- C07.10d  … and it fails exactly when the leaf operation fails for some leaf of the formula: a path that is not a
+key path of this structure (`ValueError`; an out-of-range tuple index surfaces as `IndexError`, a tuple or nested
+structure found where the formula has a single part as `AttributeError` / `ValueError`), a term the spec does not
+have (`ValueError`), a spec whose structure is not populated (`RuntimeError`). -/
+theorem specs_subset_fails_iff (S : Val (HSpec τ σ)) (fm : Val (List MTerm)) :
+    (∃ e, specsSubset S (some fm) = .error e) ↔
+      ∃ tp ∈ flattenP [] (norm fm), ∃ e, subsetAt S tp.1 tp.2 = .error e := by
+  unfold specsSubset
+  simp only
+  constructor
+  · rintro ⟨e, he⟩
+    cases hm : mapL (fun tp => subsetAt S tp.1 tp.2) (flattenP [] (norm fm)) with
+    | error e' =>
+      obtain ⟨a, ha, hfa⟩ := mapL_error _ _ _ hm
+      exact ⟨a, ha, e', hfa⟩
+    | ok l =>
+      simp only [hm] at he
+      have hlen : l.length = (flatten (norm fm)).length := by
+        rw [mapL_length _ hm, ← flattenP_fst (norm fm) [], List.length_map]
+      obtain ⟨r, hr⟩ := rebuild_ok (norm fm) l hlen
+      rw [hr] at he
+      simp at he
+  · rintro ⟨tp, htp, e, he⟩
+    cases hm : mapL (fun tp => subsetAt S tp.1 tp.2) (flattenP [] (norm fm)) with
+    | error e' => exact ⟨e', rfl⟩
+    | ok l =>
+      obtain ⟨b, _, hb⟩ := forall₂_mem_left (mapL_spec _ _ _ hm) tp htp
+      rw [he] at hb
+      simp at hb
+
+/-! ### parts in DIFFERENT states built together (the eager model `Model/Parts.lean`) -/
+
+/-- C07.11  For a structure whose parts are in ANY state — fresh formula leaves, specs attached by an earlier build
+(recorded structure, transform state), in any order — each part of the joint build equals what materialising that
+part's spec ALONE gives with the joint drop list supplied (same rows, columns, recorded structure), for every
+iteration order of either build. `hstate`: a part's factors evaluate under its own transform state as they do
+under the pooled one (true for fresh parts whose factors no other part has state for, and for materialized parts
+replayed on the data they were fitted on — the replay contract of C04); `hstruct`: a recorded structure only
+mentions factors of its own terms (true of every structure a build records: `recorded_exprs`). The encoders
+of this model depend on (expression, values, drop list) only — see `Model/PartsHist.lean` for the code's caches,
+where an encoder that reads the encoder state a spec brings along breaks this (finding C07-F1). -/
+theorem mixed_state_part_eq_standalone (W : World ν τ) (o : Opts) (F : Val (Spec τ)) (perm : List String) (caller : List Nat)
+    (j : Joint ν τ) (h : materialize W o F perm caller = .ok j)
+    (hstate : ∀ a ∈ flatten F, ∀ e ∈ exprsOf a.terms, ∀ v w, W.eval e (pooledState (norm F)) = .ok (v, w) →
+      ∃ w', W.eval e (pooledState (single a)) = .ok (v, w'))
+    (hstruct : ∀ a ∈ flatten F, ∀ str, a.struct = some str → ∀ s ∈ str, ∀ st ∈ s.sts, ∀ sf ∈ st.factors,
+      sf.expr ∈ exprsOf a.terms) :
+    List.Forall₂ (fun (a : Spec τ) (p : PartOut τ) => ∀ perm', ∃ p', materializeOne W o a perm' j.drop = .ok (p', j.drop) ∧
+        p'.matrix = p.matrix ∧ p'.spec.struct = p.spec.struct ∧ p'.spec.terms = p.spec.terms)
+      (flatten (norm F)) (flatten j.parts) := by
+  obtain ⟨hnd, hmemo, hset, hev, hdrop, hsorted⟩ := joint_facts h
+  obtain ⟨cache, _, hD, hcache, hm, _⟩ := materialize_spec h
+  obtain ⟨hf, hall⟩ := flatten_mapE hm
+  rw [norm_norm] at hf hall
+  rw [hf, List.forall₂_map_right_iff, List.forall₂_same]
+  intro a ha perm'
+  have haF : a ∈ flatten F := (mem_flatten_norm F a).mp ha
+  apply one_matches hD hnd hcache (fun e v hmem i hi => (hset i).mpr (.inr ⟨e, v, hmem, hi⟩)) a ?_ (hstruct a haF) j.state (hall a ha)
+  intro e he
+  obtain ⟨v, w, hw, hmem⟩ := hev e (mem_pooledFactors.mpr ⟨a, ha, he⟩)
+  obtain ⟨w', hw'⟩ := hstate a haF e he v w hw
+  exact ⟨v, w', hmem, hw'⟩
+
+/-- a mixed-state instance: `old` was materialized before (recorded structure, the centring state it fitted),
+`new` is a fresh part that uses the same stateful factor and another variable -/
+def demoMixed : Val (Spec Rat) :=
+  .node [("old", .leaf ⟨[["c(x)"]], some [⟨["c(x)"], [⟨[⟨"c(x)", false⟩], 1⟩], ["c(x)"]⟩], [("c(x)", 2)]⟩),
+         ("new", .leaf (Spec.ofTerms [["z"], ["c(x)"]]))]
+
+/-- it builds: row 2 (null in `z`) is dropped from BOTH parts -/
+example : (materialize demoW demoOpts demoMixed [] []).toOption.map
+      (fun j => (j.drop, (flatten j.parts).map (fun p => p.matrix.rows))) = some ([2], [[0, 1], [0, 1]]) := by
+  decide +kernel
+example : (materialize demoW demoOpts demoMixed [] []).toOption.map
+      (fun j => (flatten j.parts).map (fun p => p.matrix.cols.map (fun c => (c.name, c.col)))) =
+    some [[("c(x)", [-1, 0])], [("z", [4, 6]), ("c(x)", [-1, 0])]] := by
+  decide +kernel
+
+/-- non-vacuity of `hstate` … -/
+example : ∀ a ∈ flatten demoMixed, ∀ e ∈ exprsOf a.terms, ∀ v w, demoW.eval e (pooledState (norm demoMixed)) = .ok (v, w) →
+    ∃ w', demoW.eval e (pooledState (single a)) = .ok (v, w') := by
+  have key : (flatten demoMixed).all (fun a => (exprsOf a.terms).all (fun e =>
+      decide ((demoW.eval e (pooledState (norm demoMixed))).toOption.map (·.1) =
+        (demoW.eval e (pooledState (single a))).toOption.map (·.1)) &&
+      (demoW.eval e (pooledState (single a))).toOption.isSome)) = true := by decide +kernel
+  intro a ha e he v w hw
+  have hk := List.all_eq_true.mp (List.all_eq_true.mp key a ha) e he
+  rw [Bool.and_eq_true] at hk
+  obtain ⟨h1, h2⟩ := hk
+  have h1' := of_decide_eq_true h1
+  cases h3 : demoW.eval e (pooledState (single a)) with
+  | error x => rw [h3] at h2; simp [Except.toOption] at h2
+  | ok r =>
+    obtain ⟨v', w'⟩ := r
+    rw [hw, h3] at h1'
+    simp only [Except.toOption, Option.map_some, Option.some.injEq] at h1'
+    exact ⟨w', by rw [h1']⟩
+
+/-- … and of `hstruct` -/
+example : ∀ a ∈ flatten demoMixed, ∀ str, a.struct = some str → ∀ s ∈ str, ∀ st ∈ s.sts, ∀ sf ∈ st.factors,
+    sf.expr ∈ exprsOf a.terms := by
+  intro a ha str hs s hs1 st hst sf hsf
+  simp only [demoMixed, flatten, flattenI, List.append_nil, List.mem_cons, List.mem_nil_iff, or_false,
+    List.singleton_append] at ha
+  rcases ha with rfl | rfl
+  · simp only [Option.some.injEq] at hs
+    subst hs
+    simp only [List.mem_cons, List.mem_nil_iff, or_false] at hs1
+    subst hs1
+    simp only [List.mem_cons, List.mem_nil_iff, or_false] at hst
+    subst hst
+    simp only [List.mem_cons, List.mem_nil_iff, or_false] at hsf
+    subst hsf
+    simp [exprsOf]
+  · simp [Spec.ofTerms] at hs
+
+/-! ### `encoder_state` bookkeeping across parts -/
+
+/-- C07.12  ONE call, specs in any state: paired in `_flatten` order, the spec attached to every part records encoder
+state for EVERY scoped factor of the part's recorded structure — also when the encoded columns came from the
+materializer's shared cache because an earlier part had encoded the factor (state recorded per part, not once) —
+keeps every entry the spec brought along, and records nothing else. -/
+theorem every_user_records_encoder_state (W : HWorld ν τ σ) (mc : MatClass) (params : Params) (F : Val (HSpec τ σ))
+    (ov : Overrides) (perm : List String) (caller : List Nat) (j : JointH ν τ σ)
+    (h : materializeH W mc params F ov perm caller = .ok j) :
+    List.Forall₂ (fun (x : HSpec τ σ) (p : PartH τ σ) => ∃ str, p.spec.core.struct = some str ∧
+        (∀ s ∈ str, ∀ st ∈ s.sts, ∀ sf ∈ st.factors, sf.expr ∈ p.spec.enc.map (·.1)) ∧
+        (∀ k ∈ p.spec.enc.map (·.1), k ∈ x.enc.map (·.1) ∨ ∃ s ∈ str, ∃ st ∈ s.sts, ∃ sf ∈ st.factors, k = sf.expr) ∧
+        (∀ k ∈ x.enc.map (·.1), k ∈ p.spec.enc.map (·.1)))
+      (flatten (norm F)) (flatten j.parts) := by
+  obtain ⟨m', hc⟩ := materializeH_core h
+  obtain ⟨L, ps, c, hL, _, _, _, hb, hr, _⟩ := core_spec hc
+  obtain ⟨hf, _⟩ := rebuild_flatten (rootLast_norm F) hr
+  rw [hf]
+  have h1 := mapL_spec _ _ _ hL
+  have h2 := buildLeaves_enc cachesOK_empty hb
+  refine (forall₂_comp h1 h2).imp ?_
+  rintro x p ⟨x', hx', str, hs, a, b, c'⟩
+  have henc : x'.enc = x.enc := by
+    rw [(prepareLeaf_spec hx').2.2.2.1]; rfl
+  rw [henc] at b c'
+  exact ⟨str, hs, a, b, c'⟩
+
+/-- in the demo call the second part of the right-hand side does not use `c(x)`, the first does: each records exactly
+the factors it encodes (the constant `1` is never encoded) -/
+example : (materializeH demoHW demoMC [] demoHF Overrides.none [] []).toOption.map
+      (fun j => (flatten j.parts).map (fun p => p.spec.enc.map (·.1))) = some [["y"], ["c(x)"], ["z"]] := by
+  decide +kernel
+
+/-- two parts SHARING the factor `c(x)`: the second obtains the encoded columns from the cache the first filled, and
+still records the factor's encoder state in its own spec -/
+example : (materializeH demoHW demoMC []
+      (.node [("a", .leaf (HSpec.fresh [["c(x)"]])), ("b", .leaf (HSpec.fresh [["z"], ["c(x)"]]))]) Overrides.none [] []).toOption.map
+      (fun j => (flatten j.parts).map (fun p => p.spec.enc.map (fun kv => (kv.1, kv.2.kind)))) =
+    some [[("c(x)", "numerical")], [("z", "numerical"), ("c(x)", "numerical")]] := by
+  decide +kernel
+
+/-! ### what the theorems above do NOT say: encoders that read the state a spec brings along (finding C07-F1)
+
+`mixed_state_part_eq_standalone` is a theorem of the eager model, whose encoders are functions of (expression, values,
+drop list). In the history model the encoder also receives the encoder state of the spec being built, and the
+materializer's `encoded_cache` is keyed by the expression only. The following kernel-checked instance shows that
+"each part equals its stand-alone build with the joint drop set" then FAILS for a structure that mixes a materialized
+and a fresh part sharing a categorical factor: three rows, `A = [a, b, a]`, `z` null in row 1; `old` was built from
+`A` alone on all rows (levels a, b recorded); `new = A + z` is fresh. Built together, row 1 is dropped, `old` encodes `A`
+first with its recorded levels, and `new` receives that cached encoding: columns `A[a]`, `A[b]` (all zero), `z` —
+built alone with row 1 dropped it has `A[a]`, `z`. Row alignment and shape (C07.6, C07.8) are not affected. -/
+
+/-- a categorical encoder: the levels are the recorded ones when the spec brings some along, otherwise the distinct
+values of the kept rows; one indicator column per level -/
+def demoCatEncode (vals : List Nat) (drop : List Nat) (prior : Option (List Nat)) : Encoded × List Nat :=
+  let kept := ((List.range vals.length).zip vals).filterMap (fun iv => if drop.contains iv.1 then none else some iv.2)
+  let levels := match prior with | some l => l | none => kept.eraseDups
+  (⟨.dict (levels.map (fun l => (⟨if l = 0 then "a" else "b", true⟩, kept.map (fun v => if v = l then (1 : Rat) else 0)))),
+    false, none, false, demoFmt, none⟩, levels)
+
+def demoHW2 : HWorld (List Nat) Rat (List Nat) :=
+  { nrows := 3,
+    eval := fun e _ => match e with
+      | "A" => .ok (⟨[0, 1, 0], []⟩, [])
+      | "z" => .ok (⟨[1, 0, 3], [1]⟩, [])
+      | _ => .error "FactorEvaluationError",
+    fmeta := fun e _ => ⟨true, if e = "A" then .categorical else .numerical, false, false⟩,
+    encode := fun e vals drop _ prior =>
+      if e = "A" then .ok (demoCatEncode vals drop prior)
+      else .ok (⟨.single (((List.range vals.length).zip vals).filterMap
+        (fun iv => if drop.contains iv.1 then none else some (iv.2 : Rat))), false, none, false, demoFmt, none⟩, []) }
+def demoEnv2 : Env (List Nat) Rat (List Nat) := ⟨[demoMC], some "pandas", fun _ => demoHW2⟩
+
+example :
+    (match materializeH demoHW2 demoMC [] (.node [("old", .leaf (HSpec.fresh [["A"]]))]) Overrides.none [] [] with
+     | .ok j1 =>
+       let new : HSpec Rat (List Nat) := HSpec.fresh [["A"], ["z"]]
+       match specsGetModelMatrix demoEnv2 (.node [("old", specsOfH j1.parts), ("new", .leaf new)]) Overrides.none [] [],
+             specGetModelMatrix demoEnv2 new [] [1] with
+       | .ok out, .ok (alone, _) =>
+         some (sortSet out.dropSet, (flatten out.parts).map (fun p => (p.matrix.rows, p.matrix.cols.map (·.name))),
+           alone.matrix.rows, alone.matrix.cols.map (·.name))
+       | _, _ => none
+     | .error _ => none) =
+    some ([1], [([0, 2], ["A[a]", "A[b]"]), ([0, 2], ["A[a]", "A[b]", "z"])], [0, 2], ["A[a]", "z"]) := by
+  decide +kernel
+
+/-! ### each part equals its stand-alone build, in the history model -/
+
+section standalone
+open FormulaicVerif.Proofs.C07HistEq
+
+/-- C07.13  The central clause of the property for specs in ANY state, in the model of the code's lazy encoder
+caches: when the encoded object of a factor depends on (expression, values, drop list) only — not on the encoder
+state handed in, nor on the rank when one cache entry serves both ranks (`EncDet`; property C11 proves this cache
+transparency for the built-in codings; it is exactly what fails in finding C07-F1, see the witness above) — every part
+of a joint call equals what a NEW materializer object builds from the spec at the same position ALONE with the joint
+drop list supplied: same drop list, same rows and columns, same recorded structure and terms, for every iteration
+order of either call. `hstate`: the part's factors evaluate (kind guard included) under its own transform / encoder
+state as under the pooled ones; `hstruct`: recorded structures mention factors of their own terms only. -/
+theorem hist_part_eq_standalone (W : HWorld ν τ σ) (hdet : EncDet W) (mc : MatClass) (params : Params)
+    (F : Val (HSpec τ σ)) (ov : Overrides) (perm : List String) (caller : List Nat) (j : JointH ν τ σ)
+    (h : materializeH W mc params F ov perm caller = .ok j)
+    (hstate : ∀ x ∈ flatten (norm F), ∀ e ∈ exprsOf x.core.terms, ∀ v w,
+      evalG W (pooledEncL (flatten (norm F))) e (pooledStateL (flatten (norm F))) = .ok (v, w) →
+      ∃ w', evalG W (pooledEncL [x]) e (pooledStateL [x]) = .ok (v, w'))
+    (hstruct : ∀ x ∈ flatten (norm F), ∀ str, x.core.struct = some str → ∀ s ∈ str, ∀ st ∈ s.sts, ∀ sf ∈ st.factors,
+      sf.expr ∈ exprsOf x.core.terms) :
+    List.Forall₂ (fun (x : HSpec τ σ) (p : PartH τ σ) => ∀ perm',
+        ∃ j', materializeH W mc params (.node [("root", .leaf x)]) ov perm' j.drop = .ok j' ∧ j'.drop = j.drop ∧
+          ∃ p', flatten j'.parts = [p'] ∧ p'.matrix = p.matrix ∧ p'.spec.core.struct = p.spec.core.struct ∧
+            p'.spec.core.terms = p.spec.core.terms)
+      (flatten (norm F)) (flatten j.parts) := by
+  obtain ⟨m', hc⟩ := materializeH_core h
+  obtain ⟨L, ps, c, hL, _, hev, hdrop, hb, hr, _⟩ := core_spec hc
+  obtain ⟨hf, _⟩ := rebuild_flatten (rootLast_norm F) hr
+  rw [hf]
+  have h1 := mapL_spec _ _ _ hL
+  -- the prepared specs carry the terms and the state of the given ones
+  have hprep : List.Forall₂ (fun (a b : HSpec τ σ) => b.core = a.core ∧ b.enc = a.enc) (flatten (norm F)) L := by
+    refine h1.imp ?_
+    intro a b hab
+    obtain ⟨_, _, h3, h4, _⟩ := prepareLeaf_spec hab
+    exact ⟨by rw [h3]; rfl, by rw [h4]; rfl⟩
+  obtain ⟨hps, hpe, hpf⟩ := pooled_congr hprep
+  -- the joint evaluation
+  rw [evalAllH_eq] at hev
+  obtain ⟨hnd, hmemo, hset⟩ := evalAll_empty hev
+  have hevok := evalAll_empty_ok hev
+  simp only [mem_iterOrder] at hmemo hevok
+  have h2 := buildLeaves_sound hdet (cacheSound_empty W j.drop j.memo) hb
+  refine forall₂_imp_mem (forall₂_comp h1 h2) ?_
+  rintro x p hx _ ⟨x', hx', c1, c2, hc1, hb1⟩ perm'
+  apply standalone_of_joint hdet hx' hdrop hnd (fun e v hmem i hi => (hset i).mpr (.inr ⟨e, v, hmem, hi⟩)) hc1 hb1 ?_
+    (hstruct x hx) perm'
+  intro e he
+  have hin : e ∈ pooledFactorsL L := by
+    rw [hpf]; exact mem_pooledFactorsL.mpr ⟨x, hx, he⟩
+  obtain ⟨v, w, hw, hmem⟩ := hevok e hin
+  have hw' : evalG W (pooledEncL L) e (pooledStateL L) = .ok (v, w) := hw
+  rw [hps, hpe] at hw'
+  obtain ⟨w', hw''⟩ := hstate x hx e he v w hw'
+  exact ⟨v, w', hmem, hw''⟩
+
+/-- non-vacuity: the demo encoder reads neither the state handed in nor the rank … -/
+example : EncDet demoHW := by
+  intro e v d r r' p p' _; rfl
+
+/-- … the categorical encoder of the C07-F1 witness does read the state: `EncDet` fails there -/
+example : ¬ EncDet demoHW2 := by
+  intro h
+  have := h "A" [0, 1, 0] [1] false false none (some [0, 1]) (.inl rfl)
+  exact absurd this (by decide +kernel)
+
+/-- a mixed-state instance of the history model: `old` was materialized before (recorded structure, the centring
+state it fitted, encoder state, materializer record), `new` is fresh and shares the stateful factor -/
+def demoHMixed : Val (HSpec Rat (List Nat)) :=
+  .node [("old", .leaf { core := ⟨[["c(x)"]], some [⟨["c(x)"], [⟨[⟨"c(x)", false⟩], 1⟩], ["c(x)"]⟩], [("c(x)", 2)]⟩,
+                         enc := [("c(x)", ⟨"numerical", []⟩)], materializer := some "pandas", params := some [],
+                         output := some "pandas", efr := true, cluster := false }),
+         ("new", .leaf (HSpec.fresh [["z"], ["c(x)"]]))]
+
+example : (materializeH demoHW demoMC [] demoHMixed Overrides.none [] []).toOption.map
+      (fun j => (j.drop, (flatten j.parts).map (fun p => (p.matrix.rows, p.matrix.cols.map (·.name), p.spec.enc.map (·.1))))) =
+    some ([2], [([0, 1], ["c(x)"], ["c(x)"]), ([0, 1], ["z", "c(x)"], ["z", "c(x)"])]) := by
+  decide +kernel
+
+/-- `hstate` holds for it (checked by evaluation, then read back as the hypothesis) … -/
+example : ∀ x ∈ flatten (norm demoHMixed), ∀ e ∈ exprsOf x.core.terms, ∀ v w,
+    evalG demoHW (pooledEncL (flatten (norm demoHMixed))) e (pooledStateL (flatten (norm demoHMixed))) = .ok (v, w) →
+    ∃ w', evalG demoHW (pooledEncL [x]) e (pooledStateL [x]) = .ok (v, w') := by
+  have key : (flatten (norm demoHMixed)).all (fun x => (exprsOf x.core.terms).all (fun e =>
+      decide ((evalG demoHW (pooledEncL (flatten (norm demoHMixed))) e (pooledStateL (flatten (norm demoHMixed)))).toOption.map (·.1) =
+        (evalG demoHW (pooledEncL [x]) e (pooledStateL [x])).toOption.map (·.1)) &&
+      (evalG demoHW (pooledEncL [x]) e (pooledStateL [x])).toOption.isSome)) = true := by decide +kernel
+  intro x hx e he v w hw
+  have hk := List.all_eq_true.mp (List.all_eq_true.mp key x hx) e he
+  rw [Bool.and_eq_true] at hk
+  obtain ⟨h1, h2⟩ := hk
+  have h1' := of_decide_eq_true h1
+  cases h3 : evalG demoHW (pooledEncL [x]) e (pooledStateL [x]) with
+  | error c => rw [h3] at h2; simp [Except.toOption] at h2
+  | ok r =>
+    obtain ⟨v', w'⟩ := r
+    rw [hw, h3] at h1'
+    simp only [Except.toOption, Option.map_some, Option.some.injEq] at h1'
+    exact ⟨w', by rw [h1']⟩
+
+end standalone
+
+/-! ### nested formula specifications: the tree the constructors build, and its preservation -/
+
+/-- `Formula(a=("x", "y|z"))`: a tuple of parts under a keyword, one part itself a `|`-structured string — the
+constructors build `a: (x, {root: (y, z)})` … -/
+example : fromSpec (.kw [("a", .tup [.leaf 0, .str [] [1, 2]])] : FSpec Nat) =
+    .ok (.node [("a", .tup [.leaf 0, .node [("root", .tup [.leaf 1, .leaf 2])]])]) := rfl
+
+/-- … a nested structure that only has a non-tuple root collapses (`Formula(a=StructuredFormula(root="x"))` is
+`a: x`), a tuple root does not; `Formula(("x",))` keeps its one-element tuple … -/
+example : fromSpec (.kw [("a", .kw [("root", .leaf 0)]), ("b", .kw [("root", .tup [.leaf 1, .leaf 2])])] : FSpec Nat) =
+    .ok (.node [("a", .leaf 0), ("b", .node [("root", .tup [.leaf 1, .leaf 2])])]) := rfl
+example : fromSpec (.tup [.leaf 0] : FSpec Nat) = .ok (.node [("root", .tup [.leaf 0])]) := rfl
+
+/-- … and a structure edited after construction keeps its `root` key FIRST until the next `_map`:
+`f = StructuredFormula("x"); f.a = "y|z"` -/
+example : fromSpec (.edited (.leaf 0) [("a", .str [] [1, 2])] : FSpec Nat) =
+    .ok (.node [("root", .leaf 0), ("a", .node [("root", .tup [.leaf 1, .leaf 2])])]) := rfl
+
+/-- C07.14  Whatever nesting of strings with `~` / `|`, tuples, keywords and later edits a formula specification uses:
+when the constructors build the tree `T` from it, the joint build of `T`'s parts and the attached specs have the
+shape of `T` after the constructors have run once more (`norm`: `root` keys last) — for every data set, option
+setting, caller drop set and iteration order. -/
+theorem formula_shape_preserved (fs : FSpec (List MTerm)) (T : Val (List MTerm)) (_hT : fromSpec fs = .ok T)
+    (W : World ν τ) (o : Opts) (perm : List String) (caller : List Nat) (j : Joint ν τ)
+    (h : materialize W o (mapV (fun ts _ => (Spec.ofTerms ts : Spec τ)) [] T) perm caller = .ok j) :
+    shape j.parts = shape (norm T) ∧ shape (specsOf j.parts) = shape (norm T) := by
+  obtain ⟨h1, h2, _⟩ := shape_preserved W o _ perm caller j h
+  have hn : shape (norm (mapV (fun ts _ => (Spec.ofTerms ts : Spec τ)) [] T)) = shape (norm T) := by
+    rw [norm_of_rootLast _ (rootLast_mapV _ _ _), shape_mapV]
+  exact ⟨by rw [h1, hn], by rw [h2, hn]⟩
+
+/-- the demo formula `y ~ 1 + c(x) | z`, from its specification: three parts in the tree `lhs: y, rhs: (…, …)`, and the
+demo build keeps that shape -/
+example : fromSpec (.str [[["y"]]] [[["1"], ["c(x)"]], [["z"]]] : FSpec (List MTerm)) =
+    .ok (.node [("lhs", .leaf [["y"]]), ("rhs", .tup [.leaf [["1"], ["c(x)"]], .leaf [["z"]]])]) := rfl
+
+end histories
 
 end FormulaicVerif.Props.C07
